@@ -49,6 +49,7 @@ type sysEvent struct {
 	Bytes  int    `json:"bytes"`
 	Size   int    `json:"size"`
 	Result string `json:"result"`
+	Fresh  string `json:"fresh"` // create: "t" iff O_EXCL or O_TRUNC guarantees an empty file
 	Raw    string `json:"-"`
 }
 
@@ -196,7 +197,11 @@ func parseStrace(path, stateDir, live string) parsed {
 					labels[pth] = fmt.Sprintf("f%d", len(labels)+1)
 					fds[ret] = fdInfo{pth, "new"}
 				}
-				add(sysEvent{Ev: "create", Path: label(pth), Mode: mode})
+				fresh := "f"
+				if strings.Contains(flags, "O_EXCL") || strings.Contains(flags, "O_TRUNC") {
+					fresh = "t"
+				}
+				add(sysEvent{Ev: "create", Path: label(pth), Mode: mode, Fresh: fresh})
 			case pth == stateDir || pth == strings.TrimSuffix(stateDir, "/"):
 				if !failed {
 					fds[ret] = fdInfo{pth, "dir"}
@@ -237,6 +242,8 @@ func parseStrace(path, stateDir, live string) parsed {
 					p.LiveWrite = true
 				}
 				add(sysEvent{Ev: "touchlive"})
+			} else if ok && fi.kind == "new" && len(q) > 1 && strings.TrimSpace(q[1]) == "0" {
+				add(sysEvent{Ev: "truncate", Path: label(fi.path)})
 			}
 		case "truncate":
 			q := strings.SplitN(args, ", ", 2)
@@ -451,6 +458,13 @@ func openAndObserve(dir, kekPath string) ([]vault.SecState, error) {
 
 func key(st []vault.SecState) string { return vault.StateKey(st, false) }
 
+func first(b []byte) string {
+	if len(b) > 160 {
+		return string(b[:160]) + "..."
+	}
+	return string(b)
+}
+
 func listDir(dir string) []string {
 	ents, _ := os.ReadDir(dir)
 	var out []string
@@ -612,6 +626,15 @@ func TestAtomicFile(t *testing.T) {
 						if !(bytes.Equal(got, oldCache) || string(got) == postCache) {
 							res.Violate("kill-cache "+ck, "after "+where+" the cache file is neither the old nor the new document", rp)
 						}
+						// whatever the killed write left behind must not leak into a later, shorter document
+						short := []byte(`{"s":{"secret":{"Value":"cw==","Version":3},"lastAccess":"9"}}`)
+						sp := filepath.Join(d, "short.json")
+						os.WriteFile(sp, short, 0o600)
+						if out, err := exec.Command(child, "-dir", d, "-op", "cachewrite:"+sp).CombinedOutput(); err != nil || !strings.Contains(string(out), `"class":"ok"`) {
+							res.Violate("kill-cache-after "+ck, fmt.Sprintf("after %s a later cache write fails: %v %s", where, err, first(out)), rp)
+						} else if got, _ := os.ReadFile(liveD); !bytes.Equal(got, short) {
+							res.Violate("kill-cache-after "+ck, fmt.Sprintf("after %s a later write of a shorter document leaves %d bytes in the cache file, want exactly the %d bytes written: %q", where, len(got), len(short), first(got)), rp)
+						}
 					} else {
 						st, err := openAndObserve(d, kek)
 						if err != nil {
@@ -677,7 +700,9 @@ func TestAtomicFile(t *testing.T) {
 	res.Write(t)
 }
 
-// worksAfter: open the directory for real (leftover temporaries included) and perform a put.
+// worksAfter: a server restarted on the directory (leftover temporaries included) keeps working: a put (the file
+// grows), deletes (the file shrinks below what any leftover may hold), each followed by a reopen that must find exactly
+// the state the calls produced.
 func worksAfter(dir, kekPath string) string {
 	kek, err := vault.KEKFromFile(kekPath)
 	if err != nil {
@@ -686,12 +711,41 @@ func worksAfter(dir, kekPath string) string {
 	d := vault.NewDict(0)
 	d.NoSubst()
 	d.Name("a")
+	d.Name("b")
+	for _, tok := range []string{"x", "y", "later"} {
+		d.Val(tok)
+	}
 	s, err := vault.OpenSys(dir, kek, d)
 	if err != nil {
 		return "open: " + err.Error()
 	}
-	if o := s.DoConc(vault.Call{Op: "put", Who: "su", Rules: vault.SuRules(), Name: "a", Val: "later", Fault: "none"}); o.Class != "ok" {
-		return "put after restart: " + o.Class
+	call := func(op, name, val string) string {
+		if o := s.DoConc(vault.Call{Op: op, Who: "su", Rules: vault.SuRules(), Name: name, Val: val, Fault: "none"}); o.Class != "ok" {
+			return op + " " + name + " after restart: " + o.Class
+		}
+		return ""
 	}
-	return ""
+	reopened := func(what string) string {
+		want, _ := s.Observe(false)
+		got, err := openAndObserve(dir, kekPath)
+		if err != nil {
+			return "reopen after " + what + ": " + err.Error()
+		}
+		if key(got) != key(want) {
+			return fmt.Sprintf("reopen after %s: file holds {%s}, server serves {%s}", what, key(got), key(want))
+		}
+		return ""
+	}
+	if m := call("put", "a", "later"); m != "" {
+		return m
+	}
+	if m := reopened("a put"); m != "" {
+		return m
+	}
+	for _, n := range []string{"a", "b"} {
+		if m := call("delete", n, "Nil"); m != "" {
+			return m
+		}
+	}
+	return reopened("deleting everything")
 }
